@@ -44,7 +44,8 @@ def candidates(g, rng, n_sub=3):
         out.append(("sub", P))
         out.append(("sub", c.neg(P)))
     # subgroup points with a coordinate whose leading bytes equal those of the modulus / are zero
-    for tag, P in rng.sample(G.prefix_points(g), 2 * n_sub):
+    pp = G.prefix_points(g)
+    for tag, P in rng.sample(pp, 2 * n_sub) + [tp for tp in pp if tp[0] == "enc-half"]:
         out.append((tag, P))
         out.append((tag, c.neg(P)))
     so = G.small_order_points(g, rng)
